@@ -705,15 +705,16 @@ package app
 
 // ---- C20: structural invariant of the daemon object (assumed at entry in the sweep) -----------------------------
 // Holds once NewApp, connectDCS and newDBCluster have succeeded, which Run checks before it starts any loop.
+//@ define repairInv(app *App) = forall k string :: has(app.replRepairState, k) ==> app.replRepairState[k] != nil && alive(app.replRepairState[k]) && app.replRepairState[k].History != nil
 //@ define timingsOK(t *Timings) = t.m != nil && has(t.m, NodeFailedAt) && t.m[NodeFailedAt] != nil && has(t.m, StreamFromFailedAt) && t.m[StreamFromFailedAt] != nil && has(t.m, MasterStuckAt) && t.m[MasterStuckAt] != nil && has(t.m, ZKHALost) && t.m[ZKHALost] != nil
-//@ define appOK(app *App) = app.config != nil && app.logger != nil && app.t != nil && timingsOK(app.t) && app.dcs != nil && app.appDCS != nil && app.cluster != nil && clusterOK(app.cluster) && app.switchHelper != nil && app.replRepairState != nil && app.slaveReadPositions != nil && app.externalReplication != nil && app.offlineModeFilter != nil
+//@ define appOK(app *App) = app.config != nil && app.logger != nil && app.t != nil && timingsOK(app.t) && app.dcs != nil && app.appDCS != nil && app.cluster != nil && clusterOK(app.cluster) && app.switchHelper != nil && app.replRepairState != nil && app.slaveReadPositions != nil && app.externalReplication != nil && app.offlineModeFilter != nil && repairInv(app)
 //@ typeinv *app.Timings timingsOK init app.NewTimings
 //@ typeinv *app.App appOK init app.NewApp, (*app.App).connectDCS, (*app.App).newDBCluster
 
 // ---- C20: what the manager knows about the hosts it iterates over -----------------------------------------------
 // statesOK: every collected state is non-nil and belongs to a host that was registered when the states were collected
 // (sequential reading: the registry is refreshed only by UpdateHostsInfo, see DESIGN.md on the concurrent refresh).
-//@ define statesOK(app *App, cs map[string]*nodestate.NodeState) = forall k string :: has(cs, k) ==> cs[k] != nil && regd(app.cluster, k)
+//@ define statesOK(app *App, cs map[string]*nodestate.NodeState) = forall k string :: (has(cs, k) <==> regd(app.cluster, k)) && (has(cs, k) ==> cs[k] != nil)
 
 //@ func (*app.App).getNodeState
 //@   requires registered [safety]: regd(app.cluster, host) || host == app.cluster.local.host
@@ -723,8 +724,10 @@ package app
 //@   ensures C20.state_nonnil [C20]: result != nil
 
 //@ func (*app.App).getClusterStateFromDB$1
+//@   flags noerr
 //@   requires registered [safety]: regd(app.cluster, host) || host == app.cluster.local.host
-//@   ensures C20.getter_nonnil [C20,par]: result1 == nil ==> result0 != nil
+//@   ensures C20.getter_nonnil [C20,par]: result0 != nil
+//@   ensures C20.getter_noerr [C20]: result1 == nil
 
 //@ func (*app.App).getClusterStateFromDB
 //@   ensures C20.states_ok [C20]: statesOK(app, result)
@@ -770,7 +773,7 @@ package app
 //@ func (*app.App).calcActiveNodes
 //@   requires c20 [safety]: statesOK(app, clusterState) && clusterState[master] != nil
 //@ func (*app.App).calcActiveNodesChanges
-//@   requires c20 [safety]: statesOK(app, clusterState) && clusterState[master] != nil && listOK(clusterState, activeNodes)
+//@   requires c20 [safety]: statesOK(app, clusterState) && clusterState[master] != nil && (forall i int :: in_range(i, activeNodes) ==> clusterState[activeNodes[i]] != nil && (clusterState[activeNodes[i]].SlaveState != nil || contains(oldActiveNodes, activeNodes[i]) || activeNodes[i] == master))
 //@ func (*app.App).updateActiveNodes
 //@   requires c20 [safety]: statesOK(app, clusterState) && statesOK(app, clusterStateDcs) && clusterState[master] != nil && optOK(app)
 //@ func (*app.App).canShrinkActiveNodes
@@ -827,3 +830,29 @@ package app
 //@   requires c20 [safety]: app != nil && appOK(app) && node != nil
 //@ func (*app.App).updateReplMonTS
 //@   requires c20 [safety]: regd(app.cluster, master)
+//@ func (*app.App).getAlgorithmOrder
+//@   ensures C20.known_algorithms [C20]: forall i int :: in_range(i, result) ==> result[i] == StartSlave || result[i] == ResetSlave || result[i] == ChangeSource
+//@ func (*app.App).getSuitableAlgorithmType
+//@   requires c20 [safety]: state.History != nil
+//@   ensures C20.known_algorithm [C20]: result2 == nil ==> result0 == StartSlave || result0 == ResetSlave || result0 == ChangeSource
+//@ func (*app.App).createRepairState
+//@   requires c20 [safety]: regd(app.cluster, hostname)
+//@   ensures C20.repair_state [C20]: result1 == nil ==> result0 != nil && result0.History != nil
+//@ func (*app.App).getOrCreateHostRepairState
+//@   requires c20 [safety]: regd(app.cluster, hostname)
+//@   ensures C20.repair_state [C20]: result1 == nil ==> result0 != nil && result0.History != nil
+//@   ensures C20.repair_inv [C20]: repairInv(app)
+//@ func (*app.App).MarkReplicationRunning
+//@   requires c20 [safety]: node != nil
+//@   ensures C20.repair_inv [C20]: repairInv(app)
+//@ func (*app.App).makeReplStateKey
+//@   requires c20 [safety]: node != nil
+//@ func app.getRepairAlgorithm
+//@   ensures C20.known [C20]: (algoType == StartSlave || algoType == ResetSlave || algoType == ChangeSource) ==> result != nil
+//@ func (*app.App).getMasterHost
+//@   ensures C20.master_is_key [C20]: result1 == nil && result0 != "" ==> has(clusterState, result0)
+//@   loop 1 invariant keys: forall i int :: in_range(i, masters) ==> has(clusterState, masters[i])
+//@ func (*app.App).ensureCurrentMaster
+//@   ensures C20.master_is_key [C20]: result1 == nil ==> has(clusterState, result0)
+//@ func (*app.App).leaveMaintenance
+//@   ensures C20.registry [C20]: true
